@@ -1835,6 +1835,10 @@ class Node(SimComponent, ABC):
             if application_name not in self.software_manager.software:
                 self.sys_log.warning(f"Can't uninstall {application_name}. It's not installed.")
                 return RequestResponse.from_bool(False)
+            if not isinstance(self.software_manager.software[application_name], Application):
+                # (a service of that name is not an application: it is not removed through the application route)
+                self.sys_log.warning(f"Can't uninstall {application_name}. It's not an application.")
+                return RequestResponse.from_bool(False)
 
             application_instance = self.software_manager.software.get(application_name)
             self.software_manager.uninstall(application_instance.name)
